@@ -386,7 +386,8 @@ theorem InvCM.dead {K : Nat} {v : View} {st : St} (h : InvCM K v st) {e : Nat} (
     by_cases hie' : i = e
     · subst hie'; rw [g2e]
     · rw [g2 i hie']
-  have hnl : NoLoc st.zombies := fun z hz tr htr => GoodM.locals_nil _ tr (h.zok z hz tr htr).good
+  have hnl : NoLoc st.zombies := fun z hz tr htr =>
+    ⟨GoodM.locals_nil _ tr (h.zok z hz tr htr).good, GoodM.plain _ tr (h.zok z hz tr htr).good⟩
   rw [hpoll, releaseZombie_eq { st with rs := rs2 } e hnl]
   generalize hmine : (st.zombies.filter fun z => z.1 == e) = mine
   generalize hrest : (st.zombies.filter fun z => !(z.1 == e)) = rest
